@@ -671,6 +671,8 @@ class Interp(Ops):
         if isinstance(obj, ExcValue):
             if name == "args":
                 return obj.args
+            if name in getattr(obj, "attrs", {}):
+                return obj.attrs[name]
         if obj is None:
             self.raise_builtin("AttributeError", node, (name,))
         if isinstance(obj, Opaque):
